@@ -126,6 +126,7 @@ class Dirfile:
         self.regime = regime
         self.order = rng.choice(list(ORDERS))
         self.enc = enc
+        self.lincom_n = [1, 2, 2, 3, 3, 3]
         self.foff = rng.choice([0, 0, 1, 2, 3])
         self.fields = []      # dicts
         self.consts = []      # (name, type, value text) used for scalar indirection
@@ -192,7 +193,7 @@ class Dirfile:
         rs = lambda f: f['name'] + (rng.choice(['', '', '', '', '.r', '.m', '.z', '.i', '.a'])
                                     if f['kind'] != 'raw' or True else '')
         if kind == 'lincom':
-            n = rng.choice([1, 1, 2, 2, 3])
+            n = rng.choice(getattr(self, 'lincom_n', [1, 1, 2, 2, 3]))
             ins = [inp] + [self.vec(depth) for _ in range(n - 1)]
             terms = [(rs(i), self.coef(), self.coef()) for i in ins]
             if n == 1 and rng.random() < 0.2:
